@@ -55,8 +55,13 @@ func genInput(t *rapid.T, k stdh.Kind) ([]byte, string, [][2]uint64) {
 			}
 			for i := 0; i < 8; i++ {
 				pl := stdgen.Payload(t, "pl", pmax)
-				if big != "" && i == 0 && rapid.Bool().Draw(t, "book") {
-					pl = stdgen.Book(t, "book", 33000, pmax)
+				if big != "" && i == 0 {
+					switch rapid.IntRange(0, 3).Draw(t, "bigkind") {
+					case 0:
+						pl = stdgen.Book(t, "book", 33000, pmax)
+					case 1, 2:
+						pl = stdgen.Straddle(t, "straddle", pmax)
+					}
 				}
 				e := stdgen.Compressed(t, pl, "enc")
 				if e.Pkg == pkg {
@@ -255,6 +260,12 @@ func checkCase(env *stdrun.Env, c Case) (msg string, nontrivial bool, classes []
 	if c.Plan.DstMode == 2 {
 		classes = append(classes, "fresh-dst-windows")
 	}
+	if k.Iface == stdh.IOT && len(base.Out) > 32768 {
+		classes = append(classes, "output>32KiB")
+		if c.Plan.DstMode == 2 && c.Plan.DstStep >= 512 && c.Plan.DstStep <= 32768 {
+			classes = append(classes, "output>32KiB-in-flushed-windows-of-512..32768")
+		}
+	}
 	nontrivial = resp.NShortRead+resp.NShortWrite > 0 && stdrun.Progressed(resp)
 	return "", nontrivial, classes
 }
@@ -289,6 +300,41 @@ func TestProp(t *testing.T) {
 	defer env.Close()
 	rapid.Check(t, func(t *rapid.T) {
 		runCase(t, env, genCase(t, env))
+	})
+}
+
+// TestPropRing is the std-chunking check restricted to the class in which the
+// decoders' history ring buffers wrap: LZ77 decoders (deflate, zlib, gzip, lzw,
+// and bzip2 / the lzma family through their tools) given more than a history
+// window of output - payloads with planted repeats whose source straddles every
+// multiple of 32 KiB, or "books" of repeated lines - through flushed
+// destination windows whose size divides (or nearly divides) the window.
+func TestPropRing(t *testing.T) {
+	env, err := stdrun.Get()
+	if err != nil {
+		t.Fatal(err)
+	}
+	defer env.Close()
+	rapid.Check(t, func(t *rapid.T) {
+		pmax := 90000
+		var pl []byte
+		if rapid.IntRange(0, 2).Draw(t, "kind") == 0 {
+			pl = stdgen.Book(t, "book", 33000, pmax)
+		} else {
+			pl = stdgen.Straddle(t, "straddle", pmax)
+		}
+		e := stdgen.Compressed(t, pl, "enc")
+		k, ok := env.Kind(e.Pkg + ".decoder")
+		if !ok {
+			t.Skip("no such kind")
+		}
+		c := Case{Kind: k.Name, Payload: e.Data, Source: "encoded:" + e.Pkg + "+ring"}
+		c.Plan = stdgen.DrawPlan(t, "plan", len(e.Data))
+		c.Plan.Closed = true
+		c.Plan.DstMode = 2
+		c.Plan.DstStep = uint32(rapid.SampledFrom([]int{512, 1024, 2048, 4096, 8192, 16384, 32768, 4095, 4097, 16385, 257, 258, 300}).Draw(t, "ringstep"))
+		c.Opts.Quirks = e.Quirks
+		runCase(t, env, c)
 	})
 }
 
